@@ -344,7 +344,7 @@ class Ctx:
             "seed": int(self.seed),
             "level": self.level,
             "coverage": cov,
-            "assumptions": self.assumptions,
+            "assumptions": list(dict.fromkeys(str(a) for a in self.assumptions)),
             "wall_s": round(time.time() - self.t0, 3),
             "violations": int(self.violations),
         }
